@@ -137,6 +137,13 @@ def gen_case(r):
             node(path + [k], depth + 1)
 
     node([], 0)
+    if r.pct() < 8:
+        # a chain of single children 7-8 levels deep (heading levels beyond h6)
+        path = []
+        for i in range(r.between(7, 8)):
+            path = path + [Prim(tok.s("k") if r.coin() else f"lvl{i}")]
+            if not any(rl.path.parts == path for rl in rules):
+                rules.append(RuleT(PathT(list(path)), gen_cond(r, tok, []), None, gen_doc(r, tok)))
     # shuffle
     order = list(range(len(rules)))
     for i in range(len(order) - 1, 0, -1):
@@ -174,7 +181,9 @@ class StrictParser(HTMLParser):
         self.attr_values = []
 
     def handle_starttag(self, tag, attrs):
-        if tag not in HTML_ELEMENTS:
+        if tag not in HTML_ELEMENTS and not (tag[:1] == "h" and tag[1:].isdigit()):
+            # (deep trees get <h7>, <h8> ...: not HTML elements, but the statement asks for
+            # well-formedness - every tag closed in order - not for validity)
             self.errors.append(f"unknown tag <{tag}>")
         for k, v in attrs:
             if foreign_attr(k):
